@@ -381,3 +381,52 @@ var htmlSweepSeeds = []string{"<a>", "<a b=c>", "<a b='c'>", "<a/b>", "</a>", "<
 
 var unitSweepSeeds = []string{"&#65;", "&#x41;", "&#65", "&#x41", "&#065;", "javascript:", "data:", "vbscript:", "view-source:", "onclick", "script", "style", "href", "xmlns",
 	"xlink:href", "svg", "&#106;avascript:", "j&#x61;vascript:", "on", "iframe"}
+
+// unicodeTwins: multi-byte sequences that a "best-fit" / normalising change could start treating like the ASCII
+// byte c: the fullwidth form (U+FF00 block), well-known look-alikes of angle brackets, quotes and '=', and the
+// overlong two- and three-byte UTF-8 encodings of c itself.
+func unicodeTwins(c byte) []string {
+	var out []string
+	enc := func(r rune) string { return string(r) }
+	if c >= 0x21 && c <= 0x7e {
+		out = append(out, enc(rune(0xFF00+int(c)-0x20)))
+	}
+	switch c {
+	case '<':
+		out = append(out, enc(0x2039), enc(0x3008), enc(0xFE64), enc(0x00AB), enc(0x2329))
+	case '>':
+		out = append(out, enc(0x203A), enc(0x3009), enc(0xFE65), enc(0x00BB), enc(0x232A))
+	case '\'':
+		out = append(out, enc(0x2018), enc(0x2019), enc(0x02B9), enc(0x02BC), enc(0x2032))
+	case '"':
+		out = append(out, enc(0x201C), enc(0x201D), enc(0x2033), enc(0x02BA))
+	case '`':
+		out = append(out, enc(0x2035), enc(0x02CB))
+	case '=':
+		out = append(out, enc(0xFE66), enc(0x2550))
+	case '-':
+		out = append(out, enc(0x2010), enc(0x2013), enc(0x2212))
+	case '/':
+		out = append(out, enc(0x2215), enc(0x2044))
+	case ' ':
+		out = append(out, enc(0x00A0), enc(0x2003), enc(0x3000), enc(0x200B))
+	}
+	out = append(out, string([]byte{0xC0 | c>>6, 0x80 | c&0x3f}), string([]byte{0xE0, 0x80 | c>>6, 0x80 | c&0x3f}))
+	return out
+}
+
+// twinSweep: every seed with each structural byte replaced by (and preceded by) each of its multi-byte twins
+func twinSweep(seeds []string, structural string, emit func(string)) {
+	for _, sd := range seeds {
+		for i := 0; i < len(sd); i++ {
+			if strings.IndexByte(structural, sd[i]) < 0 {
+				continue
+			}
+			for _, tw := range unicodeTwins(sd[i]) {
+				emit(sd[:i] + tw + sd[i+1:])
+				emit(sd[:i] + tw + sd[i:])
+				emit(sd[:i+1] + tw + sd[i+1:])
+			}
+		}
+	}
+}
